@@ -1468,6 +1468,7 @@ class Run:
         sub = Run(self.prog, g, self.bufs, depth=self.depth + 1, budget=self.budget, growable=self.growable, externs=self.externs, objects=self.objects)
         sub.transparent = self.transparent
         sub.listsinks, sub.dicts = self.listsinks, self.dicts
+        sub.recs = self.recs                # records a helper builds (and returns) stay reachable in the caller
         for p_, a in zip(g['params'], e.get('a', [])):
             ao = strip_lv(a)
             if self.objects and ao.get('k') == 'var' and ('O', ao.get('id')) in self.bufs and T(g, p_['t']).get('ref'):
@@ -1640,6 +1641,19 @@ class Run:
             self.recs[name] = PodRecord()
             self.vars[v['id']] = ('R', name)
             return
+        if v.get('init') is not None and tv.get('rec') and not tv.get('ref') and not tv.get('ptr') and not tv['rec'].startswith('asl::') and \
+                not self.record_class_has_bodies(tv['rec']):
+            # a plain structure initialised from an expression that yields one (`const timespec to = deadline(t);`): a copy
+            ini_ = strip(v['init'])
+            while ini_.get('k') in ('temp', 'paren', 'cast') or (ini_.get('k') == 'construct' and len(ini_.get('a', [])) == 1):
+                ini_ = strip(ini_['e'] if ini_.get('k') != 'construct' else ini_['a'][0])
+            rv = self.val(ini_)
+            if isinstance(rv, tuple) and rv[0] == 'R' and rv[1] in self.recs:
+                name = 'pod%d' % next(_UNIQ)
+                self.recs[name] = PodRecord(self.recs[rv[1]])
+                self.vars[v['id']] = ('R', name)
+                return
+            raise Unsupported('local %s of type %s' % (v['n'], tv.get('s')))
         if v.get('init') is None:
             if tv.get('int') or tv.get('ptr'):
                 self.vars.pop(v['id'], None)
